@@ -14,7 +14,7 @@ import sys
 # ---------------------------------------------------------------------------------------------
 CLASS_IDS = {
     "BaseException": 0, "Exception": 1, "RuntimeError": 2, "AssertionError": 3, "KeyError": 4, "SyntaxError": 5,
-    "EA": 6, "EB": 7, "EC": 8, "BX": 9, "KeyboardInterrupt": 10,
+    "EA": 6, "EB": 7, "EC": 8, "BX": 9, "KeyboardInterrupt": 10, "TypeError": 11,
 }
 UNKNOWN_CLASS = 99
 PREAMBLE = (
@@ -63,6 +63,9 @@ def render_block(stmts, ind, out):
     ["break"] ["continue"] ["return", v|None] ["raise", cls, cause|None] ["reraise"]
     ["try", body, [[matcher(list of class names)|None, name|None, body]...], orelse, finalbody]
     ["with", [mgr ids], body] ["assert", k] / ["assert", k, msg site|None] ["func", k, body]
+    optional trailing elements select the async form: ["for", k, body, orelse, "sync"|"dual"|"aonly"] (async for over an
+    object with both protocols / over a proper asynchronous iterator AIt), ["with", ids, body, True], ["func", k, body, True]
+    (async def + await), ["withs", k, xbody, body, True]; case["amain"] makes main an async def
     ["sw", k] (rebinds the global class name HCk; a matcher {"var": k, "cs": [...]} reads it)
     ["withs", k, xbody, body] (with MSk(): body — MSk is a class written in the script whose __exit__ runs xbody)"""
     pad = "    " * ind
@@ -77,7 +80,9 @@ def render_block(stmts, ind, out):
         elif op == "probe":
             out.append(f"{pad}p({s[1]}, locals(), 'e{s[2]}')")
         elif op in ("if", "while", "for"):
-            head = {"if": f"if c({s[1]}):", "while": f"while c({s[1]}):", "for": f"for _ in It({s[1]}):"}[op]
+            mode = s[4] if op == "for" and len(s) > 4 else "sync"
+            loop = {"sync": f"for _ in It({s[1]}):", "dual": f"async for _ in It({s[1]}):", "aonly": f"async for _ in AIt({s[1]}):"}[mode]
+            head = {"if": f"if c({s[1]}):", "while": f"while c({s[1]}):", "for": loop}[op]
             out.append(pad + head)
             render_block(s[2], ind + 1, out)
             if s[3]:
@@ -104,19 +109,20 @@ def render_block(stmts, ind, out):
                 out.append(pad + "finally:")
                 render_block(s[4], ind + 1, out)
         elif op == "with":
-            out.append(pad + "with " + ", ".join(f"M({k})" for k in s[1]) + ":")
+            out.append(pad + ("async with " if len(s) > 3 and s[3] else "with ") + ", ".join(f"M({k})" for k in s[1]) + ":")
             render_block(s[2], ind + 1, out)
         elif op == "sw":
             out.append(f"{pad}sw({s[1]})")
         elif op == "withs":
-            out.append(f"{pad}with MS{s[1]}():")
+            out.append(f"{pad}{'async with' if len(s) > 4 and s[4] else 'with'} MS{s[1]}():")
             render_block(s[3], ind + 1, out)
         elif op == "assert":
             out.append(f"{pad}assert c({s[1]})" + (f", ms({s[2]})" if len(s) > 2 and s[2] is not None else ""))
         elif op == "func":
-            out.append(f"{pad}def g{s[1]}():")
+            asy = len(s) > 3 and s[3]
+            out.append(f"{pad}{'async def' if asy else 'def'} g{s[1]}():")
             render_block(s[2], ind + 1, out)
-            out.append(f"{pad}fr({s[1]}, g{s[1]}())")
+            out.append(f"{pad}fr({s[1]}, {'await ' if asy else ''}g{s[1]}())")
         else:
             raise ValueError(f"unknown statement {s!r}")
 
@@ -142,10 +148,14 @@ def script_managers(stmts, acc):
 def render(case):
     out = []
     for s in script_managers(case["body"], []):
-        out += [f"class MS{s[1]}:", "    def __enter__(self):", f"        en({s[1]})", "        return self",
-                "    def __exit__(self, et, ev, tb):", f"        ex({s[1]}, ev)"]
+        if len(s) > 4 and s[4]:
+            out += [f"class MS{s[1]}:", "    async def __aenter__(self):", f"        en({s[1]})", "        return self",
+                    "    async def __aexit__(self, et, ev, tb):", f"        ex({s[1]}, ev)"]
+        else:
+            out += [f"class MS{s[1]}:", "    def __enter__(self):", f"        en({s[1]})", "        return self",
+                    "    def __exit__(self, et, ev, tb):", f"        ex({s[1]}, ev)"]
         render_block(s[2], 2, out)
-    out.append("def main():")
+    out.append("async def main():" if case.get("amain") else "def main():")
     render_block(case["body"], 1, out)
     return "\n".join(out) + "\n"
 
@@ -235,6 +245,34 @@ def make_env(case, log, classes, G):
                 return 1
             raise StopIteration
 
+        def __aiter__(self):
+            return self
+
+        async def __anext__(self):
+            b = pop(self.k)
+            add(["n", self.k, b])
+            if b:
+                return 1
+            raise StopAsyncIteration
+
+    class AIt:
+        """a proper asynchronous iterator: no __iter__/__next__"""
+
+        def __init__(self, k):
+            self.k = k
+            cur[k] = list(full.get(k, []))
+            add(["iter", k])
+
+        def __aiter__(self):
+            return self
+
+        async def __anext__(self):
+            b = pop(self.k)
+            add(["n", self.k, b])
+            if b:
+                return 1
+            raise StopAsyncIteration
+
     class M:
         def __init__(self, k):
             self.k = k
@@ -254,7 +292,13 @@ def make_env(case, log, classes, G):
                 raise classes[ex[1]]()
             return bool(ex)
 
-    env = {"t": t, "c": c, "ms": ms, "p": p, "fr": fr, "It": It, "M": M, "sw": sw, "en": en, "ex": ex}
+        async def __aenter__(self):
+            return self.__enter__()
+
+        async def __aexit__(self, et, ev, tb):
+            return self.__exit__(et, ev, tb)
+
+    env = {"t": t, "c": c, "ms": ms, "p": p, "fr": fr, "It": It, "AIt": AIt, "M": M, "sw": sw, "en": en, "ex": ex}
     for k in case.get("hcs", []):
         env[f"HC{k}"] = binding(int(k))
     return env
@@ -278,7 +322,16 @@ def run_cpython(case, src):
         return {"log": [], "res": ["invalid", str(exc)[:100]]}
     exec(code, g)  # pylint: disable=exec-used
     try:
-        res = result_of(g["main"]())
+        val = g["main"]()
+        if case.get("amain"):
+            # no recording object ever suspends: the coroutine runs to completion on the first send
+            try:
+                val.send(None)
+            except StopIteration as stop:
+                val = stop.value
+            else:
+                raise RuntimeError("coroutine suspended")
+        res = result_of(val)
     except BaseException as exc:  # pylint: disable=broad-except
         res = result_of(exc=exc)
     return {"log": log, "res": res}
